@@ -331,6 +331,24 @@ theorem coord_forIndexes_triangles (h : α) (c : Impl.CoordTris α) (idx : List 
   simp [List.getD_eq_getElem?_getD, this]
   rfl
 
+/-- `for_limits_and_scale` (coordinate form): the coordinate list is the full integer box
+    `[x_shift, int(2·x_max/scale)] × [y_shift − 1, int(y_max/(h·scale)) + 1]`. -/
+theorem mem_coordsForLimits (trunc : α → Int) (h xMin xMax yMin yMax scale : α) (k : Int × Int) :
+    k ∈ Impl.coordsForLimits trunc h xMin xMax yMin yMax scale ↔
+      (trunc (2 * xMin / scale) ≤ k.1 ∧ k.1 ≤ trunc (2 * xMax / scale))
+      ∧ (trunc (yMin / (h * scale)) - 1 ≤ k.2 ∧ k.2 ≤ trunc (yMax / (h * scale)) + 1) := by
+  obtain ⟨kx, ky⟩ := k
+  simp only [Impl.coordsForLimits, List.mem_flatMap, List.mem_map, List.mem_range, Prod.mk.injEq]
+  constructor
+  · rintro ⟨i, hi, j, hj, rfl, rfl⟩
+    simp only [Int.ofNat_eq_natCast]
+    omega
+  · rintro ⟨⟨h1, h2⟩, h3, h4⟩
+    refine ⟨(kx - trunc (2 * xMin / scale)).toNat, by omega,
+      (ky - (trunc (yMin / (h * scale)) - 1)).toNat, by omega, ?_, ?_⟩
+    · simp only [Int.ofNat_eq_natCast]; omega
+    · simp only [Int.ofNat_eq_natCast]; omega
+
 end field
 
 end Model
